@@ -16,6 +16,33 @@ CLAIMED = {
     note=NOTE_COMMON + " OS symlink resolution is outside the string theorems.",
     technique="Lean 4 proof over translated source function + exhaustive model/implementation correspondence",
     ref="§5 C06"),
+ "C01": dict(
+    text=("Lean theorems over an index-level World model, for every history of operator commands, external faults and task steps in any "
+          "interleaving (task-step granularity; one delete step per copy): an unlink by a delete step implies >= 2 healthy archive copies on "
+          "other nodes in the index of that step; update_delete selects only unwanted, non-source copies; no other step changes the bytes of "
+          "a copy recorded healthy; constants (3/2, archive_count filters) re-read from the source. PARTIAL w.r.t. statement-granular "
+          "interleaving across daemons: count-read and unlink are not atomic (counter-example theorem C01_split_race, F-TOCTOU). Tie: real "
+          "update_delete/delete_async/check/update_pull/search/pull_async on real indexes and directories, compared after every step."),
+    note=NOTE_COMMON + " Task-step atomicity across daemons (DESIGN §4.1); storage_type read at task start.",
+    technique="Lean 4 proof (invariant over histories) + step-wise model/implementation correspondence with unlink oracle",
+    ref="§5 C01"),
+ "C02": dict(
+    text=("Lean theorems over the World model: a pull completes the request only on a successful transfer, and then the destination holds the "
+          "source's bytes and a healthy/wanted/ready copy row exists (same step = same transaction); every failure leaves the request "
+          "pending, nothing at the destination path, no new healthy row, source flagged suspect exactly when it may be at fault; "
+          "overwriting is reachable only through a destination recorded corrupt (single-node groups). Tie: every transport route with "
+          "scripted tools, all destination pre-states, DB fault at every statement of the pull task."),
+    note=NOTE_COMMON + " Byte fidelity of rsync/bbcp is their exit-code/digest contract; multi-node groups (Transport, HSM) pull_force placement not modelled (F11).",
+    technique="Lean 4 proof (case analysis per transfer outcome) + route x outcome x pre-state correspondence and fault enumeration",
+    ref="§5 C02"),
+ "C14": dict(
+    text=("Lean theorems: for every history of dispatches and task ends by any path, reserved = factor x sizes of live pulls (never negative, "
+          "no failing release, zero when idle); a pull is admitted only if not under-min, not at limit and factor x size fits net of "
+          "reservations; factor read from the source (=2); counter-example for the pinned leak. Tie: real DefaultNodeIO.pull + real pull "
+          "tasks ending by all seven paths (incl. DB errors) with _reserved_bytes read after every event."),
+    note=NOTE_COMMON + " reserve/release are single critical sections on one mutex (sequential consistency assumed); KiB-exact space values.",
+    technique="Lean 4 proof (invariant over event histories) + event-sequence correspondence",
+    ref="§5 C14"),
  "C03": dict(
     text=("Lean theorems for all observations/registrations: the check verdict is Y/X/N exactly per the rule (registered size none/0/n), "
           "the block/chunk loop of _md5sum_file feeds the hash exactly the content for every content and positive block/chunk size, "
